@@ -3,6 +3,7 @@ package checks
 import (
 	"fmt"
 	"os"
+	"reflect"
 	"regexp"
 	"sort"
 	"strconv"
@@ -86,7 +87,7 @@ var c08Menu = []string{
 	"pretty.JSON", "pretty.SEN", "alt.Decompose", "alt.Generify", "alt.Recompose", "gen.Parser",
 	"jp.Get", "jp.First", "jp.Has", "jp.Locate", "jp.Walk", "jp.Set", "jp.Del", "jp.Modify", "jp.Remove", "Script.Match", "Script.Eval",
 	"sen.Unmarshal", "oj.Match",
-	"oj.ValidateReader", "oj.TokenizeLoad", "oj.MatchLoad", "sen.Tokenize", "sen.Match", "sen.MatchLoad", "pretty.WriteJSON", "oj.MustParse", "sen.MustParse", "alt.Alter", "alt.Dup", "jp.String",
+	"oj.ValidateReader", "oj.TokenizeLoad", "oj.MatchLoad", "sen.Tokenize", "sen.Match", "sen.MatchLoad", "pretty.WriteJSON", "oj.MustParse", "sen.MustParse", "alt.Alter", "alt.Dup", "jp.String", "alt.Recompose(embedded)", "oj.Unmarshal(embedded)",
 	// aborted calls: the error paths run concurrently with everybody else's calls
 	"oj.Marshal(unencodable)", "oj.Marshal(failing Marshaler)", "oj.JSON(panicking Simplifier)", "oj.Write(failing writer)", "sen.Write(failing writer)",
 	"sen.String(panicking Simplifier)", "oj.Load(reader error)", "oj.Parse(panicking callback)", "oj.Tokenize(panicking handler)", "sen.Parse(panicking callback)", "oj.Marshal(failing TextMarshaler)",
@@ -278,6 +279,14 @@ func (o *op08) exec() (r ret08) {
 		var n za.Node
 		_, err := alt.Recompose(map[string]any{"ID": 3, "In": map[string]any{"N": 1, "S": "s"}, "Kids": []any{map[string]any{"ID": 4}}, "t": "x"}, &n)
 		r.canon = fmt.Sprintf("%v %s", err != nil, derefAllAny(n))
+	case "alt.Recompose(embedded)":
+		var e za.EmbedsDeep
+		_, err := alt.Recompose(map[string]any{"Z": 1, "WIn": map[string]any{"Left": map[string]any{"X": 1.5, "Name": "n"}, "M": map[string]any{"k": map[string]any{"N": 2}}}, "WList": []any{map[string]any{"A": 1, "B": "b"}}}, &e)
+		r.canon = fmt.Sprintf("%v %s", err != nil, derefAll(reflect.ValueOf(e)))
+	case "oj.Unmarshal(embedded)":
+		var e za.EmbedsDeep
+		err := oj.Unmarshal([]byte(`{"Z":1,"WIn":{"Left":{"X":1.5,"Name":"n"},"Right":{"X":2},"M":{"k":{"N":2}}},"WList":[{"A":1,"B":"b","L":[1,2]}]}`), &e)
+		r.canon = fmt.Sprintf("%v %s", err != nil, derefAll(reflect.ValueOf(e)))
 	case "gen.Parser":
 		p := gen.Parser{}
 		n, err := p.Parse(doc(o.A))
@@ -440,13 +449,13 @@ func exactSorted(vals []any) string {
 
 func derefAllAny(v any) string { return fmt.Sprintf("%+v", v) }
 
-// warmUp registers every zoo type used by the workload with the default recomposer (the
-// documented precondition for sharing it between goroutines).
+// warmUp registers the outer zoo types used by the workload with the default recomposer - by explicit
+// registration only, no warm-up run: registering a type is documented to cover the struct types of its
+// members, which is the precondition for sharing the recomposer between goroutines.
 func warmUp() {
 	resetDefaultRecomposer("")
 	_ = alt.DefaultRecomposer.RegisterComposer(&za.Node{}, nil)
-	var n za.Node
-	_ = oj.Unmarshal([]byte(`{"ID":3,"In":{"N":1,"S":"s"},"Kids":[{"ID":4}],"Attrs":{"k":{"N":2}},"t":"x","F64":1.5,"Items":[{"X":1}],"Ptr":{"N":1},"Child":{"ID":1}}`), &n)
+	_ = alt.DefaultRecomposer.RegisterComposer(&za.EmbedsDeep{}, nil)
 }
 
 // ---- race detector as in-run monitor
